@@ -74,35 +74,122 @@ theorem lang_eq_of_certificate (s : Skeleton) (root : String) (cfg : Cfg) (F : F
 
 set_option maxRecDepth 200000
 
+/-- every scenario of one stack: (entry function, configuration, standard language) -/
+def tlcpScenarios : List (String × Cfg × Flows) :=
+  [(clientRoot, clientCfg false false, clientFull ⟨false⟩), (clientRoot, clientCfg false true, clientFull ⟨true⟩),
+   (clientRoot, clientCfg true false, clientResumed), (clientRoot, clientCfg true true, clientResumed),
+   (serverRoot, serverCfg false false false, serverFull ⟨false, false⟩),
+   (serverRoot, serverCfg false false true, serverFull ⟨false, true⟩),
+   (serverRoot, serverCfg false true false, serverFull ⟨true, false⟩),
+   (serverRoot, serverCfg false true true, serverFull ⟨true, true⟩),
+   (serverRoot, serverCfg true false false, serverResumed), (serverRoot, serverCfg true false true, serverResumed),
+   (serverRoot, serverCfg true true false, serverResumed), (serverRoot, serverCfg true true true, serverResumed)]
+
+/-- the kernel evaluates the bisimulation check of all twelve scenarios (one evaluation, so
+that the skeleton is compiled once) -/
+theorem tlcp_bisimulations :
+    tlcpScenarios.all (fun c => bisimCertificate tlcpSk c.1 c.2.1 c.2.2) = true := by decide +kernel
+
+theorem tlcp_lang_eq (root : String) (cfg : Cfg) (F : Flows) (h : (root, cfg, F) ∈ tlcpScenarios)
+    (w : List Kind) : accepts tlcpSk root cfg w = inLang F w :=
+  lang_eq_of_certificate tlcpSk root cfg F ((List.all_eq_true.mp tlcp_bisimulations) (root, cfg, F) h) w
+
 /-- client, full handshake: ServerHello, Certificate, ServerKeyExchange, [CertificateRequest],
 ServerHelloDone, ChangeCipherSpec, Finished — and nothing else (F1 repaired: a flow without
 ServerKeyExchange is refused) -/
 theorem C08_client_full (ecdhe : Bool) (w : List Kind) :
     accepts tlcpSk clientRoot (clientCfg false ecdhe) w = true ↔ inLang (clientFull ⟨ecdhe⟩) w = true := by
-  cases ecdhe
-  · rw [lang_eq_of_certificate tlcpSk clientRoot _ (clientFull ⟨false⟩) (by decide)]
-  · rw [lang_eq_of_certificate tlcpSk clientRoot _ (clientFull ⟨true⟩) (by decide)]
+  cases ecdhe <;> rw [tlcp_lang_eq _ _ _ (by simp [tlcpScenarios])]
 
 /-- client, resumed: ServerHello (echo), ChangeCipherSpec, Finished -/
 theorem C08_client_resumed (ecdhe : Bool) (w : List Kind) :
     accepts tlcpSk clientRoot (clientCfg true ecdhe) w = true ↔ inLang clientResumed w = true := by
-  cases ecdhe <;> rw [lang_eq_of_certificate tlcpSk clientRoot _ clientResumed (by decide)]
+  cases ecdhe <;> rw [tlcp_lang_eq _ _ clientResumed (by simp [tlcpScenarios])]
 
 /-- server, full handshake: ClientHello, Certificate iff requested, ClientKeyExchange,
 CertificateVerify iff a certificate was sent, ChangeCipherSpec, Finished -/
 theorem C08_server_full (requested emptyOK : Bool) (w : List Kind) :
     accepts tlcpSk serverRoot (serverCfg false requested emptyOK) w = true ↔
       inLang (serverFull ⟨requested, emptyOK⟩) w = true := by
-  cases requested <;> cases emptyOK
-  · rw [lang_eq_of_certificate tlcpSk serverRoot _ (serverFull ⟨false, false⟩) (by decide)]
-  · rw [lang_eq_of_certificate tlcpSk serverRoot _ (serverFull ⟨false, true⟩) (by decide)]
-  · rw [lang_eq_of_certificate tlcpSk serverRoot _ (serverFull ⟨true, false⟩) (by decide)]
-  · rw [lang_eq_of_certificate tlcpSk serverRoot _ (serverFull ⟨true, true⟩) (by decide)]
+  cases requested <;> cases emptyOK <;> rw [tlcp_lang_eq _ _ _ (by simp [tlcpScenarios])]
 
 /-- server, resumed: ClientHello, ChangeCipherSpec, Finished -/
 theorem C08_server_resumed (requested emptyOK : Bool) (w : List Kind) :
     accepts tlcpSk serverRoot (serverCfg true requested emptyOK) w = true ↔ inLang serverResumed w = true := by
-  cases requested <;> cases emptyOK <;> rw [lang_eq_of_certificate tlcpSk serverRoot _ serverResumed (by decide)]
+  cases requested <;> cases emptyOK <;> rw [tlcp_lang_eq _ _ serverResumed (by simp [tlcpScenarios])]
+
+/-! ### C08: the four languages, DTLCP
+
+Same flows behind the cookie exchange, with the datagram allowance of the spec: a duplicate of
+the first message of the peer's previous flight (HelloVerifyRequest / ClientHello) is dropped
+while the next flight is awaited (`Spec.StandardFlow.dtlcpClient`, `dtlcpServer`). -/
+
+def dtlcpSk : Skeleton where
+  flows := Facts.dtlcp.flows
+  table := Facts.dtlcp.recordTable
+  pre := Facts.dtlcp.recordPre
+  retryIncrementsFirst := Facts.dtlcp.retryIncrementsFirst
+  retryLimitCond := Facts.dtlcp.retryLimitCond
+  ecdheNeedsSkx := Facts.dtlcp.ecdheClientCkxNeedsSkx
+  maxUseless := Facts.dtlcp.maxUselessRecords
+
+def bisimCertificateI (s : Skeleton) (root : String) (cfg : Cfg) (F : FlowsI) : Bool :=
+  s.maxUseless == maxIgnorable &&
+  match start cfg (progOf s root) with
+  | none => false
+  | some q0 => bisimFrom (auto cfg (progOf s root)) specAutoI q0 F
+
+theorem lang_eq_of_certificateI (s : Skeleton) (root : String) (cfg : Cfg) (F : FlowsI)
+    (h : bisimCertificateI s root cfg F = true) (w : List Kind) :
+    accepts s root cfg w = inLangI F w := by
+  unfold bisimCertificateI at h
+  simp only [Bool.and_eq_true, beq_iff_eq] at h
+  obtain ⟨hmax, h2⟩ := h
+  unfold accepts
+  cases hs : start cfg (progOf s root) with
+  | none => simp [hs] at h2
+  | some q0 =>
+    simp only [hs] at h2
+    simp only
+    rw [← specAutoI_correct F w, hmax]
+    exact accepts_eq_of_bisimFrom _ _ q0 F h2 maxIgnorable w
+
+def dtlcpScenarios : List (String × Cfg × FlowsI) :=
+  [(clientRoot, clientCfg false false, dtlcpClient (clientFull ⟨false⟩)),
+   (clientRoot, clientCfg false true, dtlcpClient (clientFull ⟨true⟩)),
+   (clientRoot, clientCfg true false, dtlcpClient clientResumed), (clientRoot, clientCfg true true, dtlcpClient clientResumed),
+   (serverRoot, serverCfg false false false, dtlcpServer (serverFull ⟨false, false⟩)),
+   (serverRoot, serverCfg false false true, dtlcpServer (serverFull ⟨false, true⟩)),
+   (serverRoot, serverCfg false true false, dtlcpServer (serverFull ⟨true, false⟩)),
+   (serverRoot, serverCfg false true true, dtlcpServer (serverFull ⟨true, true⟩)),
+   (serverRoot, serverCfg true false false, dtlcpServer serverResumed), (serverRoot, serverCfg true false true, dtlcpServer serverResumed),
+   (serverRoot, serverCfg true true false, dtlcpServer serverResumed), (serverRoot, serverCfg true true true, dtlcpServer serverResumed)]
+
+theorem dtlcp_bisimulations :
+    dtlcpScenarios.all (fun c => bisimCertificateI dtlcpSk c.1 c.2.1 c.2.2) = true := by decide +kernel
+
+theorem dtlcp_lang_eq (root : String) (cfg : Cfg) (F : FlowsI) (h : (root, cfg, F) ∈ dtlcpScenarios)
+    (w : List Kind) : accepts dtlcpSk root cfg w = inLangI F w :=
+  lang_eq_of_certificateI dtlcpSk root cfg F ((List.all_eq_true.mp dtlcp_bisimulations) (root, cfg, F) h) w
+
+theorem C08_dtlcp_client_full (ecdhe : Bool) (w : List Kind) :
+    accepts dtlcpSk clientRoot (clientCfg false ecdhe) w = true ↔
+      inLangI (dtlcpClient (clientFull ⟨ecdhe⟩)) w = true := by
+  cases ecdhe <;> rw [dtlcp_lang_eq _ _ _ (by simp [dtlcpScenarios])]
+
+theorem C08_dtlcp_client_resumed (ecdhe : Bool) (w : List Kind) :
+    accepts dtlcpSk clientRoot (clientCfg true ecdhe) w = true ↔ inLangI (dtlcpClient clientResumed) w = true := by
+  cases ecdhe <;> rw [dtlcp_lang_eq _ _ (dtlcpClient clientResumed) (by simp [dtlcpScenarios])]
+
+theorem C08_dtlcp_server_full (requested emptyOK : Bool) (w : List Kind) :
+    accepts dtlcpSk serverRoot (serverCfg false requested emptyOK) w = true ↔
+      inLangI (dtlcpServer (serverFull ⟨requested, emptyOK⟩)) w = true := by
+  cases requested <;> cases emptyOK <;> rw [dtlcp_lang_eq _ _ _ (by simp [dtlcpScenarios])]
+
+theorem C08_dtlcp_server_resumed (requested emptyOK : Bool) (w : List Kind) :
+    accepts dtlcpSk serverRoot (serverCfg true requested emptyOK) w = true ↔
+      inLangI (dtlcpServer serverResumed) w = true := by
+  cases requested <;> cases emptyOK <;> rw [dtlcp_lang_eq _ _ (dtlcpServer serverResumed) (by simp [dtlcpScenarios])]
 
 /-! ### all scenarios at once, and the corollaries of the property statement -/
 
@@ -203,7 +290,11 @@ theorem C08_facts :
     compiles tlcpSk clientRoot = true ∧ compiles tlcpSk serverRoot = true ∧
     Facts.tlcp.maxUselessRecords = 16 ∧
     Facts.tlcp.retryIncrementsFirst = true ∧ Facts.tlcp.retryLimitCond = "c.retryCount > maxUselessRecords" ∧
-    Facts.tlcp.clientResumesOnlyOnEcho = true := by
+    Facts.tlcp.clientResumesOnlyOnEcho = true ∧
+    compiles dtlcpSk clientRoot = true ∧ compiles dtlcpSk serverRoot = true ∧
+    Facts.dtlcp.maxUselessRecords = 16 ∧
+    Facts.dtlcp.retryIncrementsFirst = true ∧ Facts.dtlcp.retryLimitCond = "c.retryCount > maxUselessRecords" ∧
+    Facts.dtlcp.clientResumesOnlyOnEcho = true := by
   decide
 
 /-! ### non-vacuity and the finding F1 -/
